@@ -27,6 +27,9 @@ Faithful == /\ (E.res \in {"RemoteAlertFatal", "RemoteAlertWarning"} => E.desc =
             \* library looks for the peer's alert and raises it ("send failure during handshake looks for peer alert")
             /\ (E.env = "fatalsend" /\ ~E.buffered => E.res = "RemoteAlertFatal")
 
+Sib == /\ l <= Len(T) /\ E.ev = "SIB" /\ l' = l + 1 /\ UNCHANGED tid
+       /\ SiblingFails /\ last' = [api |-> "sibling", env |-> "-", res |-> "-", pre |-> phase]
+       /\ E.sess = sess'
 Step == /\ l <= Len(T) /\ E.ev = "CALL" /\ l' = l + 1 /\ UNCHANGED tid
         /\ CASE E.api = "handshake" -> Handshake(E.env, E.res)
              [] E.api = "read"      -> Read(E.env, E.arrive, E.res, E.n)
@@ -36,7 +39,7 @@ Step == /\ l <= Len(T) /\ E.ev = "CALL" /\ l' = l + 1 /\ UNCHANGED tid
         /\ last' = [api |-> E.api, env |-> E.env, res |-> E.res, pre |-> phase]
         /\ ProjMatches /\ Faithful
 InvAll == TruncationNotEOF /\ NoResumeAfterFatal /\ NoCompleteAfterFault /\ FatalAlertSurfaced /\ WriteAfterCloseRaises
-TraceNext == Step /\ InvAll'
+TraceNext == (Step \/ Sib) /\ InvAll'
 
 Mark == IF l - 1 > TLCGet(tid) THEN TLCSet(tid, l - 1) ELSE TRUE
 ASSUME \A i \in 1..N : TLCSet(i, 0)
